@@ -475,6 +475,16 @@ class TreeExec:
         self.events.append(("removed", "parent", [e] + self.model.descendants(e), len(self.results)))
         self.model.remove(e, "parent")
 
+    def op_stats(self, d):
+        """Harness-only: inject a StatsCache dataset under the data's type node, as
+        Geoscience ANALYST does (so that clear_stats_cache has something to clear)."""
+        x = self.ent(d)
+        f = x.workspace.geoh5
+        proj = f[list(f)[0]]
+        node = proj["Types"]["Data types"]["{" + str(x.entity_type.uid) + "}"]
+        if "StatsCache" not in node:
+            node.create_dataset("StatsCache", data=np.array([1.0, 2.0, 3.0]))
+
     def op_gc(self):
         self.held = [h for h in self.held]  # no-op under 'hold'
         world.full_collect()
@@ -628,6 +638,7 @@ SCENES["S4"] = [
     ["add_data", 6, "fv"],
 ]
 SCENES["S4r"] = SCENES["S4"] + [["reopen"]]
+SCENES["S5"] = SCENES["S2"] + [["stats", 2], ["stats", 3], ["stats", 6]]
 SCENES["S2r"] = SCENES["S2"] + [["reopen"]]
 SCENES["S1r"] = SCENES["S1"] + [["reopen"]]
 
